@@ -1071,19 +1071,76 @@ func c20CycleModelCheck(c *Ctx, observed map[string]string) {
 func c20Cycles(c *Ctx) {
 	type job struct {
 		shape, api, want string
+		op               string // stable name for violations (default: api/shape)
+		bucket           string // aggregated distribution bucket for generated jobs
 	}
 	var jobs []job
+	// generated family: rings of pointer/interface/struct hops × entry point × marshal entry point (c20_sub.go)
+	var genSpecs []string
+	genSpecs = append(genSpecs, c20GenSpecs(1)...)
+	genSpecs = append(genSpecs, c20GenSpecs(2)...)
+	l3 := c20GenSpecs(3)
+	if c.Thorough() {
+		genSpecs = append(genSpecs, l3...)
+	} else {
+		grng := c.SubRng(3131)
+		for _, sp := range l3 {
+			homogeneous := sp[0:2] == sp[2:4] && sp[2:4] == sp[4:6]
+			if homogeneous || grng.IntN(12) == 0 {
+				genSpecs = append(genSpecs, sp)
+			}
+		}
+	}
+	ngen := 0
+	for si, sp := range genSpecs {
+		class := "deepening"
+		if c20GenPointerOnly(sp) {
+			class = "pointer-only"
+		}
+		for ei, entry := range c20GenEntries {
+			if entry == "embed" && sp[1] != 's' {
+				continue
+			}
+			for ai, api := range c20CycleAPIs {
+				// quick: rings of length 1 through every entry point × every API; longer rings through every entry point
+				// with the API rotating over the product, and through Marshal + v1.Marshal at the pointer
+				if !c.Thorough() && len(sp) > 2 && !((si+ei)%len(c20CycleAPIs) == ai || (entry == "ptr" && (ai == 0 || api == "v1.Marshal"))) {
+					continue
+				}
+				shape := "g:" + sp + "@" + entry
+				jobs = append(jobs, job{shape: shape, api: api, want: "cyc",
+					bucket: fmt.Sprintf("cycle-gen/%s/L=%d/%s/%s", api, len(sp)/2, entry, class)})
+				ngen++
+			}
+		}
+	}
+	// the same rings as Unmarshal targets.  A pointer-only ring never consumes input: that is the open finding D6
+	// (classified under its op names); a ring with a struct hop must end (type error on the input `1`).
+	unmarshalSpecs := []string{"Ap", "Bp", "ApBp", "As", "Bs", "Is", "AsBp", "IpAs"}
+	if c.Thorough() {
+		unmarshalSpecs = append(unmarshalSpecs, "Aq", "Bq", "An", "Bn", "ApBq", "BnAp", "ApBpAp", "BpBpBp", "IsIs", "AsBsIs")
+	}
+	for _, sp := range unmarshalSpecs {
+		for _, api := range []string{"Unmarshal", "v1.Unmarshal"} {
+			j := job{shape: "g:" + sp + "@ptr", api: api, want: "any", bucket: "cycle-gen/" + api + "/" + sp}
+			if c20GenPointerOnly(sp) {
+				j.op = api + "/iface-self" // the same defect as `var x any; x = &x; Unmarshal("1", &x)`
+			}
+			jobs = append(jobs, j)
+		}
+	}
+	c.Note("generated cycle family: %d rings (%d of length 3), %d marshal jobs, %d unmarshal jobs", len(genSpecs), len(genSpecs)-9-81, ngen, 2*len(unmarshalSpecs))
 	allAPIs := map[string]bool{"slice-self": true, "struct-ptr-cycle": true, "ptr-to-ptr-cycle": true, "iface-self": true, "chain-list-10001": true}
 	for _, s := range c20Shapes {
 		for ai, api := range c20CycleAPIs {
 			// quick: every shape through Marshal and v1.Marshal, a representative subset through the other entry points
 			if c.Thorough() || ai == 0 || api == "v1.Marshal" || allAPIs[s.name] {
-				jobs = append(jobs, job{s.name, api, s.want})
+				jobs = append(jobs, job{shape: s.name, api: api, want: s.want})
 			}
 		}
 	}
 	for _, s := range c20UnmarshalShapes {
-		jobs = append(jobs, job{s.name, "-", "any"})
+		jobs = append(jobs, job{shape: s.name, api: "-", want: "any"})
 	}
 	nproc := 2
 	if c.Thorough() {
@@ -1107,6 +1164,7 @@ func c20Cycles(c *Ctx) {
 		wg.Add(1)
 		go func(remaining []job) {
 			defer wg.Done()
+			genCrashes := 0
 			for len(remaining) > 0 {
 				lines := make([]string, len(remaining))
 				for i, j := range remaining {
@@ -1114,10 +1172,20 @@ func c20Cycles(c *Ctx) {
 				}
 				batch := remaining
 				opOf := func(j job) string {
-					if j.api == "-" {
+					switch {
+					case j.op != "":
+						return j.op
+					case j.api == "-":
 						return j.shape
 					}
 					return j.api + "/" + j.shape
+				}
+				hit := func(j job, res string) {
+					if j.bucket != "" {
+						c.Hit(j.bucket + "=" + res)
+					} else {
+						c.Hit("cycle/" + opOf(j) + "=" + res)
+					}
 				}
 				stuck, status, stderr := c20Batch("c20cycle", lines, 30*time.Second, func(i int, f []string) {
 					j := batch[i]
@@ -1125,11 +1193,14 @@ func c20Cycles(c *Ctx) {
 					c.Case("cycle|"+op, true)
 					res := strings.Join(f, " ")
 					if strings.HasPrefix(res, "panic") {
-						c.Hit("cycle/" + op + "=panic")
-						c.Violate("panic", op, nil, map[string]any{"panic": res})
+						hit(j, "panic")
+						c.Violate("panic", op, []byte(j.shape), map[string]any{"panic": res, "shape": j.shape, "api": j.api})
 						return
 					}
-					c.Hit("cycle/" + op + "=" + res)
+					if res == "n/a" {
+						fail("generated job %s %s is not applicable", j.shape, j.api)
+					}
+					hit(j, res)
 					record(op, res)
 					ok := true
 					switch j.want {
@@ -1144,7 +1215,7 @@ func c20Cycles(c *Ctx) {
 						ok = res != "ok" // v1 errors carry no class
 					}
 					if !ok {
-						c.Violate("cycle-wrong-result", op, nil, map[string]any{"result": res, "want": j.want})
+						c.Violate("cycle-wrong-result", op, nil, map[string]any{"result": res, "want": j.want, "shape": j.shape, "api": j.api})
 					}
 				})
 				if stuck < 0 {
@@ -1160,10 +1231,28 @@ func c20Cycles(c *Ctx) {
 				case strings.Contains(stderr, "stack overflow") || strings.Contains(stderr, "goroutine stack exceeds"):
 					kind = "stack-overflow"
 				}
-				c.Hit("cycle/" + op + "=" + kind)
+				hit(j, kind)
 				record(op, kind)
-				c.Violate(kind, op, nil, map[string]any{"status": status, "stderr_head": trunc(stderr, 300)})
+				c.Violate(kind, op, nil, map[string]any{"status": status, "stderr_head": trunc(stderr, 300), "shape": j.shape, "api": j.api})
 				remaining = remaining[stuck+1:]
+				// every crash costs a process start and a stack overflow: after a few crashes of generated marshal jobs
+				// the point is made; the remaining generated marshal jobs of this worker are dropped (and counted)
+				if strings.HasPrefix(j.shape, "g:") && j.want == "cyc" {
+					genCrashes++
+					if genCrashes >= 6 {
+						var rest []job
+						dropped := 0
+						for _, r := range remaining {
+							if strings.HasPrefix(r.shape, "g:") && r.want == "cyc" {
+								dropped++
+								continue
+							}
+							rest = append(rest, r)
+						}
+						remaining = rest
+						c.HitN("cycle-gen/dropped-after-6-crashes", int64(dropped))
+					}
+				}
 			}
 		}(mine)
 	}
